@@ -17,6 +17,7 @@ import YaegiVerif.Generated.C04
      SOP   (as LEXP REXP) | (op LEXP k) | (def x REXP) | (mul (LEXP…) (REXP…)) | (muld (x…) (0|1…) (VAL…) (REXP…))
            | (app d LEXP REXP (REXP…) VAL esz noscan) | (apps d LEXP REXP REXP VAL esz noscan) | (cp REXP REXP)
            | (ms LEXP IEXP REXP) | (md LEXP IEXP) | (lk2 d x ok LEXP IEXP VAL [rdx rdok]) | (call d LEXP LEXP k REXP) | (show x…)
+           | (clit d LEXP isStruct VAL (((i…) REXP)…))
            | (rcv d LEXP REXP) | (as2 d x ok REXP succ VAL rdx rdok)
      OP    SOP | (rng LEXP i v (SOP…)) | (capt LEXP x LEXP k (n…)) -/
 namespace YaegiVerif.Driver.C04
@@ -87,6 +88,11 @@ def parseS : Sexp → Option SOp
     some (.lookup2 (← d.bool?) (← x.nat?) (← ok.nat?) (← parseL m) (← parseI k) (← parseVal z) false false)
   | .list [.atom "lk2", d, x, ok, m, k, z, rdx, rdok] => do
     some (.lookup2 (← d.bool?) (← x.nat?) (← ok.nat?) (← parseL m) (← parseI k) (← parseVal z) (← rdx.bool?) (← rdok.bool?))
+  | .list [.atom "clit", d, l, st, z, elems] => do
+    let es ← parseList (fun e => match e with
+      | .list [p, r] => do some ((← parseList Sexp.nat? p), (← parseR r))
+      | _ => none) elems
+    some (.complit (← d.bool?) (← parseL l) (← st.bool?) (← parseVal z) es)
   | .list [.atom "rcv", d, l, r] => do some (.recv (← d.bool?) (← parseL l) (← parseR r))
   | .list [.atom "as2", d, x, ok, r, succ, z, rdx, rdok] => do
     some (.assert2 (← d.bool?) (← x.nat?) (← ok.nat?) (← parseR r) (← succ.bool?) (← parseVal z) (← rdx.bool?) (← rdok.bool?))
